@@ -416,11 +416,14 @@ theorem safe_no_item_iter_pyiter_partial (m i b : Bool) (ty : Ty) (ia : GetResul
     ∀ ev ∈ compiledPyIter (cfgWith m i b) ty ia ann, ev.isProtocol = false := by
   intro ev hev
   unfold compiledPyIter hasIter at hev
-  have : (if (cfgWith m i b).hasIterExecutes = true then iterCallEvents ty else []) = [] := by
-    split <;> simp [h]
-  rw [this, List.nil_append] at hev
-  obtain ⟨id, _, rfl⟩ := (safe_no_item_iter_iterlist m i b ty ia ann).1 ev hev
-  rfl
+  rw [h, List.append_nil] at hev
+  rcases List.mem_append.mp hev with h1 | h2
+  · split at h1
+    · obtain ⟨id, _, rfl⟩ := List.mem_map.mp h1
+      rfl
+    · cases h1
+  · obtain ⟨id, _, rfl⟩ := (safe_no_item_iter_iterlist m i b ty ia ann).1 ev h2
+    rfl
 
 /-- counter-witness while `has_iter` calls `iter(obj)`: `for x in obj` on an instance of a class
 with a user `__iter__` runs it, whatever the mode. -/
